@@ -214,4 +214,57 @@ def search : Nat → St → List Call → Bool
 
 def linearizable (σ : St) (h : List Call) : Bool := search h.length σ h
 
+/-! ### the machine replayed on a recorded history (round 4b, after the audit)
+
+  `search` above asks whether a history has a linearization against the SPECIFICATION `apply`.  `replay` asks whether the
+  history is a behaviour of the CODE MODEL: every call is run as the atomic steps of the code (`stepC`: registry calls,
+  Config(), SetConfig(nil) one step; SetConfig(cfg) a `load` and then `casStore`s until one succeeds), the steps of the
+  pending calls interleaved in every way the recorded invocation / response times allow, and every step that makes a
+  call return must return the recorded result.  The driver runs BOTH on every recorded history.
+  C14.exec_linearizable: every execution of the machine that `replay` can find is linearizable (so the machine refines
+  the specification over all interleavings, failed swaps included). -/
+
+/-- a call being replayed; `loaded`: its SetConfig has done a Load (the next step is a CompareAndSwap) -/
+structure PCall where
+  c : Call
+  loaded : Bool
+deriving DecidableEq, Repr
+
+/-- the next atomic step of the code for a pending call (the thread id is the call's id) -/
+def PCall.act (p : PCall) : Act :=
+  match p.c.op with
+  | .cfgSet c l => if p.loaded then .casStore p.c.id c l else .load p.c.id
+  | op => .atomic p.c.id op
+
+def replay : Nat → CState → List PCall → Bool
+  | _, _, [] => true
+  | 0, _, _ => false
+  | fuel + 1, s, ps =>
+    ps.any (fun p =>
+      -- every call that had returned before p was invoked has finished (it is no longer pending)
+      ps.all (fun d => !precedes d.c p.c) &&
+      (match (stepC s p.act).2 with
+       | some r => r == p.c.res && replay fuel (stepC s p.act).1 (ps.erase p)
+       | none => replay fuel (stepC s p.act).1 (ps.erase p ++ [{ p with loaded := true }])))
+
+/-- can the code model produce the history? (fuel: every call takes at most one step per other call and two of its own) -/
+def replayable (σ : St) (h : List Call) : Bool :=
+  replay ((h.length + 2) * (h.length + 2)) ⟨σ, []⟩ (h.map (fun c => ⟨c, false⟩))
+
+/-! ### which operations take effect along a schedule -/
+
+def Act.isStore : Act → Bool
+  | .store _ _ _ => true
+  | _ => false
+
+/-- the operations that take effect along a run of the machine, in the order in which they take effect: an atomic call at
+    its step, a SetConfig(cfg) at its SUCCESSFUL CompareAndSwap; loads and failed swaps are no effect -/
+def effOps : CState → List Act → List Op
+  | _, [] => []
+  | s, a :: r =>
+    (match a with
+     | .atomic _ op => [op]
+     | .casStore tid c l => if loadedOf tid s.loaded = (s.σ.custom, s.σ.locale) then [.cfgSet c l] else []
+     | _ => []) ++ effOps (stepC s a).1 r
+
 end Gozod.Conc
